@@ -172,6 +172,17 @@ func registerIntrinsics(p *Program) {
 		ex.natState["jsonstr"] = a[0]
 		return doc
 	})
+	reg("verifGuard", func(ex *Exec, a []Value) Value {
+		g := guardRec{mu: a[0].(Ptr)}
+		for _, f := range ex.sliceElems(a[1].(SliceVal)) {
+			g.fields = append(g.fields, f.(IfaceVal).V.(Ptr))
+		}
+		ex.guards = append(ex.guards, g)
+		return nil
+	})
+	reg("verifLockFree", func(ex *Exec, a []Value) Value {
+		return Bool(ex.mutexHeld(a[0].(Ptr)) == 0)
+	})
 	reg("verifSymbolic", func(ex *Exec, a []Value) Value { return True })
 	reg("verifNondetTime", func(ex *Exec, a []Value) Value {
 		tag := concStr(ex, a[0])
@@ -265,3 +276,68 @@ func (ex *Exec) reachable(v Value, target *Object) bool {
 
 var _ = fmt.Sprint
 var _ types.Type
+
+type guardRec struct {
+	mu     Ptr
+	fields []Ptr
+}
+
+func samePtr(a, b Ptr) bool {
+	if a.Obj != b.Obj || len(a.Path) != len(b.Path) {
+		return false
+	}
+	for i := range a.Path {
+		if a.Path[i] != b.Path[i] {
+			return false
+		}
+	}
+	return true
+}
+
+// guardAccess checks the lock discipline declared with verifGuard for an
+// access through pointer p (write = store).
+func (ex *Exec) guardAccess(p Ptr, write bool) {
+	for _, g := range ex.guards {
+		for _, f := range g.fields {
+			if samePtr(p, f) {
+				ex.guardCheck(g, write, "field")
+			}
+		}
+	}
+}
+
+// guardMap checks an operation on map m if m is (or is an inner map of) a guarded field.
+func (ex *Exec) guardMap(m *MapVal, write bool) {
+	if m == nil {
+		return
+	}
+	for _, g := range ex.guards {
+		for _, f := range g.fields {
+			fv, ok := ex.load(f).(*MapVal)
+			if !ok || fv == nil {
+				continue
+			}
+			hit := fv == m
+			if !hit {
+				for _, e := range fv.Entries {
+					if inner, ok := e.V.(*MapVal); ok && inner == m {
+						hit = true
+					}
+				}
+			}
+			if hit {
+				ex.guardCheck(g, write, "map")
+			}
+		}
+	}
+}
+
+func (ex *Exec) guardCheck(g guardRec, write bool, what string) {
+	st := ex.mutexHeld(g.mu)
+	switch {
+	case write && st != -1:
+		ex.Assert(False, "lock-discipline/write-to-guarded-"+what+"-without-exclusive-lock")
+	case !write && st == 0:
+		ex.Assert(False, "lock-discipline/read-of-guarded-"+what+"-without-lock")
+	}
+}
